@@ -63,7 +63,7 @@ RootWrites(s, st) ==
        [] OTHER              -> {}
 
 \* ModelsEmitter._generate_model_file catches every exception of a failing write, logs it and goes on
-Swallows(st) == st = "models"
+Swallows(st) == FALSE       \* (before fix 89cee11: st = "models")
 
 \* does the diff stage find a difference?  (_show_diffs: only *.py present on both sides)
 \* "partial" = files missing on the old side (ignored before fix 2894bf8, a difference since).  As the code behaves, the temp tree ALSO differs from an
